@@ -39,7 +39,7 @@ PROBES = ["interned_default_returned", "init_returned_itself", "incompatible_ini
           "ror_used", "equal_sets_hash_equal", "negative_namespace_definition",
           "last_namespace_wins", "inheriting_namespace_subclass",
           "namespace_with_converting_constructor", "plain_mixin_among_bases",
-          "render_args_subclass"]
+          "render_args_subclass", "explicit_none_before_namespaces"]
 COMPONENTS = {
     "real": ["RenderArgs (__new__/__init__ interning, update, convert, __eq__, __hash__, "
              "__contains__, __getitem__)", "ArgsNamespace (__or__, __ror__, __pos__, update, "
@@ -282,6 +282,9 @@ def run(ch, ctx, fault=None):
                 nsl = [ch.pick("ns", nss) for _ in range(ch.int("n_ns", 0, 3))] if nss else []
                 exp = model_ctor(target, init, nsl)
                 args = ([init[0]] if init is not None else []) + [n[0] for n in nsl]
+                if init is None and nsl and ch.bool("explicit_none", 0.3):
+                    args = [None] + args        # "no initial set", spelt out
+                    ctx.probe("explicit_none_before_namespaces")
                 # the concrete class of a set is immaterial to every law (an application may
                 # subclass RenderArgs): equal sets of different concrete classes are equal
                 ra_cls = RenderArgs
@@ -505,9 +508,28 @@ def run(ch, ctx, fault=None):
                 else:
                     if args_classes:
                         i = ch.pick("cls", args_classes)
-                        res = attempt(lambda: classes[i]["Args"](nope=1), op)
-                        check(res == ("exc", "UnknownArgsFieldError"), "unknown_field_accepted",
-                              {"got": repr(res)}, "negative")
+                        if classes[i].get("custom_init"):
+                            i = next((j for j in args_classes if not classes[j].get("custom_init")),
+                                     None)
+                    else:
+                        i = None
+                    if i is not None:
+                        # an unknown field / a field given twice, with none, some or ALL of the
+                        # fields given positionally
+                        names_ = list(classes[i]["fields"])
+                        npos = ch.pick("npos_neg", (0, 1, len(names_), len(names_)))
+                        npos = min(npos, len(names_))
+                        posv = [ch.int("val", 0, 4) for _ in range(npos)]
+                        if ch.bool("duplicate", 0.4) and npos:
+                            kwv = {names_[ch.int("dup", 0, npos - 1)]: 1}
+                            want = ("exc", "TypeError")
+                        else:
+                            kwv = {"nope": 1}
+                            want = ("exc", "UnknownArgsFieldError")
+                        res = attempt(lambda: classes[i]["Args"](*posv, **kwv), op)
+                        check(res == want, "unknown_field_accepted",
+                              {"got": repr(res), "expected": want, "positional": posv,
+                               "keywords": kwv, "fields": names_}, "negative")
                 desc = "negative definition: %s" % which
             ctx.op(desc)
             key.append(desc)
